@@ -8,6 +8,10 @@ CONSTANTS
   StrangerIds = {"null"}
   EraseFirst = TRUE
   KeepOnResponse = FALSE
+  PeerIds = {1, 2}
+  AsyncIntoRequestRing = FALSE
+  Ops = {"req", "notify", "rsp", "stranger", "adv", "cleanup"}
+  GenPeerIds = {1}
   Depth = 5
 SPECIFICATION GSpec
 CONSTRAINT Emit
